@@ -451,6 +451,11 @@ def gen_generic(rng, hostile):
     for k in range(base, base + ntab):
         nrow = rng.randint(0 if not nolabel else 1, 12)   # a NOLABEL table without records is an empty file
         rows = [[gen_sci(rng, d=d, zero_p=0.15, wide=hostile and rng.random() < 0.1) for _ in range(ncol)] for _ in range(nrow)]
+        if nrow >= 2 and rng.random() < 0.35:
+            # repeated records (constant covariates, several records per individual): a record may equal an earlier one, the first included
+            for i in range(1, nrow):
+                if rng.random() < 0.45:
+                    rows[i] = [list(c) for c in rows[rng.randrange(i)]]
         tables.append({"number": k + 1, "now": 3, "title": None, "hw": w, "names": names, "cols": [[w, "r"]] * ncol,
                        "rows": rows, "repeat": rng.choice([0, 0, 1, 2, 3, 5])})
     return {"kind": "generic", "suffix": rng.choice(["", ".tab", ".dta"]), "tables": tables, "notitle": notitle,
